@@ -21,6 +21,7 @@ type TV struct {
 	Pkg     string     // the expression denotes a package (import path)
 	FnRef   *ssa.Function
 	PredRef *Pred
+	PredPkg string // package whose contract file declares PredRef (when referenced as pkg.pred)
 	Builtin string
 }
 
@@ -60,7 +61,7 @@ var basicTypes = map[string]types.Type{
 
 var builtinFns = map[string]bool{"len": true, "cap": true, "old": true, "region": true, "offset": true, "fresh": true, "allocated": true,
 	"rsize": true, "istype": true, "astype": true, "bytesat": true, "same": true, "addr": true, "avail": true, "typeid": true, "strof": true,
-	"nilslice": true, "maplen": true, "bytesof": true, "isnil": true, "implements": true, "snap": true, "eqbytes": true, "writable": true, "apply": true, "ufbool": true, "ufint": true, "ufstr": true, "strwin": true}
+	"nilslice": true, "maplen": true, "bytesof": true, "isnil": true, "implements": true, "snap": true, "eqbytes": true, "writable": true, "apply": true, "ufbool": true, "ufint": true, "ufstr": true, "strwin": true, "loopmeasure": true}
 
 func (en *Env) importPath(name string) string {
 	if name == "vs" {
@@ -196,6 +197,12 @@ func (en *Env) eval(ex Expr) TV {
 			}
 			obj := tp.Types.Scope().Lookup(v.Sel)
 			if obj == nil {
+				// a predicate declared in the other package's contract file
+				if ps := e.specs[b.Pkg]; ps != nil {
+					if pr := ps.Preds[v.Sel]; pr != nil {
+						return TV{PredRef: pr, PredPkg: b.Pkg}
+					}
+				}
 				en.fail("%s.%s not found", b.Pkg, v.Sel)
 			}
 			return en.object(obj)
@@ -520,6 +527,9 @@ func (en *Env) fieldOfObject(elem types.Type, sty *types.Struct, ref *Term, sel 
 				// typing fact of every slice value stored in memory
 				en.st.assume(en.st.sliceWF(sv))
 			}
+			if sv, ok := fv.(VString); ok && len(en.bound) == 0 {
+				en.st.assume(en.st.stringWF(sv))
+			}
 			return TV{V: fv, T: ft}
 		}
 	}
@@ -749,6 +759,12 @@ func (en *Env) call(c ECall) TV {
 				a = en.coerce(a, t)
 			}
 			sub.vars[prm.Name] = a
+		}
+		if f.PredPkg != "" {
+			// the body is evaluated in the declaring package's scope
+			if tp := e.tpkgs[f.PredPkg]; tp != nil {
+				sub.pkg = tp.Types
+			}
 		}
 		return sub.eval(p.Body)
 	case f.FnRef != nil:
@@ -981,6 +997,25 @@ func (en *Env) call(c ECall) TV {
 				st.assume(st.stringWF(sv))
 			}
 			return TV{V: sv, T: strT}
+		case "loopmeasure":
+			// loopmeasure(N): the value the decreases measure of the enclosing loop N had at the start of
+			// its current iteration (for invariants of inner loops that must carry the outer progress)
+			if en.fr == nil {
+				en.fail("loopmeasure outside a loop invariant")
+			}
+			nv := en.eval(c.Args[0])
+			if nv.Untyped == nil {
+				en.fail("loopmeasure needs a constant loop number")
+			}
+			n64, _ := constant.Int64Val(constant.ToInt(nv.Untyped))
+			for hb, h := range e.loops(en.fr.fn).headers {
+				if h.ord == int(n64) {
+					if snap := en.fr.loops[hb]; snap != nil && snap.measure != nil {
+						return TV{V: VScalar{snap.measure}, T: intT}
+					}
+				}
+			}
+			en.fail("loop %d has no measure in scope", n64)
 		case "strwin":
 			// strwin(s, delta, n): the window of length n of the byte array underlying string s that
 			// starts delta bytes after the start of s (delta may be negative)
